@@ -225,6 +225,20 @@ func (c *coordinator) checkEvents(ctx context.Context) error {
 	return nil
 }
 
+// safeCheckEvents contains a panic raised while fetching or processing
+// transmit events: run is the service's own goroutine and the service cannot be
+// started a second time, so an escaping panic would end event processing for
+// good while the service still counts as running
+func (c *coordinator) safeCheckEvents(ctx context.Context) (err error) {
+	defer func() {
+		if r := recover(); r != nil {
+			err = fmt.Errorf("panic while checking transmit events: %v", r)
+		}
+	}()
+
+	return c.checkEvents(ctx)
+}
+
 func (c *coordinator) run() {
 	defer close(c.done)
 
@@ -239,7 +253,7 @@ func (c *coordinator) run() {
 		case <-timer.C:
 			startTime := time.Now()
 
-			if err := c.checkEvents(ctx); err != nil {
+			if err := c.safeCheckEvents(ctx); err != nil {
 				if ctx.Err() != nil {
 					return
 				}
